@@ -250,8 +250,8 @@ impl<const N: usize> MSet<N> {
     }
     pub fn has(&self, x: u8) -> bool {
         let mut i = 0;
-        while i < N {
-            if i < self.len && self.items[i] == x {
+        while i < self.len {
+            if self.items[i] == x {
                 return true;
             }
             i += 1;
@@ -282,8 +282,8 @@ impl<const N: usize> Model for MSet<N> {
     fn join(&self, o: &Self) -> Self {
         let mut r = *self;
         let mut i = 0;
-        while i < N {
-            if i < o.len {
+        while i < o.len {
+            {
                 r.add(o.items[i]);
             }
             i += 1;
@@ -292,8 +292,8 @@ impl<const N: usize> Model for MSet<N> {
     }
     fn le(&self, o: &Self) -> bool {
         let mut i = 0;
-        while i < N {
-            if i < self.len && !o.has(self.items[i]) {
+        while i < self.len {
+            if !o.has(self.items[i]) {
                 return false;
             }
             i += 1;
@@ -321,8 +321,8 @@ impl<V: Model, const N: usize> MMap<V, N> {
     }
     pub fn pos(&self, k: u8) -> Option<usize> {
         let mut i = 0;
-        while i < N {
-            if i < self.len && self.keys[i] == k {
+        while i < self.len {
+            if self.keys[i] == k {
                 return Some(i);
             }
             i += 1;
@@ -362,8 +362,8 @@ impl<V: Model, const N: usize> Model for MMap<V, N> {
     fn join(&self, o: &Self) -> Self {
         let mut r = self.clone();
         let mut i = 0;
-        while i < N {
-            if i < o.len {
+        while i < o.len {
+            {
                 if let Some(v) = &o.vals[i] {
                     r.put(o.keys[i], v.clone());
                 }
@@ -374,8 +374,8 @@ impl<V: Model, const N: usize> Model for MMap<V, N> {
     }
     fn le(&self, o: &Self) -> bool {
         let mut i = 0;
-        while i < N {
-            if i < self.len {
+        while i < self.len {
+            {
                 if let Some(v) = &self.vals[i] {
                     if !v.is_bot() {
                         match o.at(self.keys[i]) {
@@ -395,8 +395,8 @@ impl<V: Model, const N: usize> Model for MMap<V, N> {
     }
     fn is_bot(&self) -> bool {
         let mut i = 0;
-        while i < N {
-            if i < self.len {
+        while i < self.len {
+            {
                 if let Some(v) = &self.vals[i] {
                     if !v.is_bot() {
                         return false;
@@ -423,8 +423,8 @@ impl<V: Model, const N: usize> Model for MVec<V, N> {
     fn join(&self, o: &Self) -> Self {
         let mut r = self.clone();
         let mut i = 0;
-        while i < N {
-            if i < o.len {
+        while i < o.len {
+            {
                 let ov = o.vals[i].clone().unwrap();
                 r.vals[i] = Some(if i < self.len { self.vals[i].as_ref().unwrap().join(&ov) } else { ov });
             }
@@ -440,8 +440,8 @@ impl<V: Model, const N: usize> Model for MVec<V, N> {
             return false;
         }
         let mut i = 0;
-        while i < N {
-            if i < self.len && !self.vals[i].as_ref().unwrap().le(o.vals[i].as_ref().unwrap()) {
+        while i < self.len {
+            if !self.vals[i].as_ref().unwrap().le(o.vals[i].as_ref().unwrap()) {
                 return false;
             }
             i += 1;
